@@ -19,7 +19,8 @@ func newSkipList() List {
 func (l *list) Insert(id interface{}, deadline time.Time) {
 	l.mtx.Lock()
 	defer l.mtx.Unlock()
-	l.insert(id, deadline.Round(time.Second))
+	// insert rounds for the bucket key itself; the entry keeps the exact deadline so that Delete finds it
+	l.insert(id, deadline)
 }
 
 func (l *list) Reset() {
